@@ -75,6 +75,17 @@ var universe = []*elem{
 	{name: "i53", src: two53, quick: true, m: mint(two53)},
 	{name: "i53p", src: two53p, quick: true, m: mint(two53p)},
 	{name: "d53", src: two53 + ".0d0", quick: true, m: mflt(two53)},
+	// the precision edge of each float format: an integer the format cannot hold next to the float of the rounded value
+	// (a comparison that goes through the float type calls them equal and breaks transitivity / sxhash agreement)
+	{name: "i24", src: "16777216", quick: true, m: mint("16777216")},
+	{name: "i24p", src: "16777217", quick: true, m: mint("16777217")},
+	{name: "f24", src: "(coerce 16777216 'single-float)", quick: true, m: mflt("16777216")},
+	{name: "d24p", src: "16777217.0d0", quick: true, m: mflt("16777217")},
+	{name: "i32p", src: "4294967297"},
+	{name: "f32", src: "(coerce 4294967296 'single-float)"},
+	{name: "l53p", src: two53p + ".0l0", quick: true},
+	{name: "im24p", src: "-16777217"},
+	{name: "fm24", src: "(coerce -16777216 'single-float)"},
 	{name: "r12a", src: "1/2", quick: true, m: mrat("1/2")},
 	{name: "r12b", src: "1/2", quick: true, m: mrat("1/2")},
 	{name: "d05", src: "0.5d0", quick: true, m: mflt("1/2")},
